@@ -1,0 +1,689 @@
+//! Verification hooks, only compiled with the cargo feature `verif` (off by default).
+//!
+//! Everything in here is observation: print capture, an instruction counter / budget, guarded
+//! probes in front of the VM's unchecked accesses, a shadow heap (allocation ledger) and a
+//! callback around garbage collections. All state is thread-local. With the feature enabled and
+//! nothing configured the interpreter behaves exactly like the normal build.
+
+use crate::object::{Error, Object, Type};
+use std::cell::RefCell;
+use std::collections::HashMap;
+
+pub use crate::gc::GC;
+
+/// Re-export of the (crate-private) syntax tree so that a harness can inspect what `parse` returned.
+pub mod ast {
+    pub use crate::ast::*;
+}
+
+#[derive(Clone, Copy, PartialEq, Eq, Debug)]
+pub enum ShadowMode {
+    /// No bookkeeping at all (sanitizers see the raw allocator traffic).
+    Off,
+    /// Ledger of every box obtained / released; memory is really released.
+    Ledger,
+    /// Like Ledger, but a destroyed box is only marked dead and its memory is kept, so a later
+    /// dereference can be reported instead of being undefined behaviour.
+    Quarantine,
+}
+
+#[derive(Clone, Debug, PartialEq)]
+pub enum Event {
+    /// An unchecked VM operation was about to run outside of its contract.
+    Probe {
+        site: &'static str,
+        ip: usize,
+        stack_len: usize,
+        operand: i64,
+    },
+    UseAfterFree {
+        addr: usize,
+    },
+    DoubleFree {
+        addr: usize,
+    },
+    /// Release of a box the ledger has never seen (only meaningful if the ledger was on for the whole life of the box).
+    UnknownFree {
+        addr: usize,
+    },
+}
+
+/// Panic payload used to end a run after a probe or shadow-heap event.
+pub struct VerifStop;
+
+#[derive(Clone, Copy, Debug, PartialEq, Eq)]
+pub enum GcPhase {
+    RunBegin,
+    RunEnd,
+    Untrace,
+    DestroyBegin,
+    DestroyEnd,
+}
+
+#[derive(Clone, Copy, Debug)]
+pub struct TraceRec {
+    pub ip: u32,
+    pub op: u8,
+    pub stack_len: u32,
+    pub bp: u16,
+    pub frames: u16,
+}
+
+#[derive(Clone, Copy, Debug)]
+pub struct HeapEntry {
+    pub ty: u8,
+    pub live: bool,
+    pub seq: u64,
+}
+
+pub type GcCallback = Box<dyn FnMut(GcPhase, &[&[Object]], &[Object])>;
+
+struct State {
+    capture: bool,
+    out: Vec<String>,
+    budget: Option<u64>,
+    budget_hit: bool,
+    count: u64,
+    per_op: [u64; 256],
+    probes: bool,
+    stop_on_event: bool,
+    events: Vec<Event>,
+    shadow: ShadowMode,
+    heap: HashMap<usize, HeapEntry>,
+    allocs: u64,
+    frees: u64,
+    trace: bool,
+    trace_cap: usize,
+    trace_log: Vec<TraceRec>,
+    trace_truncated: bool,
+    branch_schedule: Option<Vec<bool>>,
+    branch_pos: usize,
+    gc_cb: Option<GcCallback>,
+    // derived from the code of the current run
+    code_len: usize,
+    boundary: Vec<bool>,
+    region_of: Vec<u32>,
+    entries: Vec<u32>,
+    n_consts: usize,
+    max_opcode: u8,
+    frames: Vec<(usize, usize)>,
+}
+
+impl State {
+    fn new() -> Self {
+        State {
+            capture: false,
+            out: Vec::new(),
+            budget: None,
+            budget_hit: false,
+            count: 0,
+            per_op: [0; 256],
+            probes: false,
+            stop_on_event: true,
+            events: Vec::new(),
+            shadow: ShadowMode::Off,
+            heap: HashMap::new(),
+            allocs: 0,
+            frees: 0,
+            trace: false,
+            trace_cap: 1 << 20,
+            trace_log: Vec::new(),
+            trace_truncated: false,
+            branch_schedule: None,
+            branch_pos: 0,
+            gc_cb: None,
+            code_len: 0,
+            boundary: Vec::new(),
+            region_of: Vec::new(),
+            entries: Vec::new(),
+            n_consts: 0,
+            max_opcode: 0,
+            frames: Vec::new(),
+        }
+    }
+}
+
+thread_local! {
+    static STATE: RefCell<State> = RefCell::new(State::new());
+}
+
+fn with<R>(f: impl FnOnce(&mut State) -> R) -> R {
+    STATE.with(|s| f(&mut s.borrow_mut()))
+}
+
+// ------------------------------------------------------------------------------------------------
+// Configuration (called by the harness)
+
+/// Forget everything, including the shadow heap.
+pub fn reset_all() {
+    with(|s| {
+        let cb = s.gc_cb.take();
+        *s = State::new();
+        s.gc_cb = cb;
+    });
+}
+
+/// Reset the per-run state (output, counters, events, trace, budget) but keep the mode switches and the shadow heap.
+pub fn reset_run() {
+    with(|s| {
+        s.out.clear();
+        s.budget = None;
+        s.budget_hit = false;
+        s.count = 0;
+        s.per_op = [0; 256];
+        s.events.clear();
+        s.trace_log.clear();
+        s.trace_truncated = false;
+        s.branch_schedule = None;
+        s.branch_pos = 0;
+        s.frames.clear();
+    });
+}
+
+pub fn set_capture(on: bool) {
+    with(|s| s.capture = on);
+}
+pub fn set_budget(b: Option<u64>) {
+    with(|s| {
+        s.budget = b;
+        s.budget_hit = false;
+    });
+}
+pub fn set_probes(on: bool) {
+    with(|s| s.probes = on);
+}
+pub fn set_stop_on_event(on: bool) {
+    with(|s| s.stop_on_event = on);
+}
+pub fn set_shadow(mode: ShadowMode) {
+    with(|s| s.shadow = mode);
+}
+pub fn set_trace(on: bool, cap: usize) {
+    with(|s| {
+        s.trace = on;
+        s.trace_cap = cap;
+    });
+}
+pub fn set_branch_schedule(sched: Option<Vec<bool>>) {
+    with(|s| {
+        s.branch_schedule = sched;
+        s.branch_pos = 0;
+    });
+}
+pub fn set_gc_callback(cb: Option<GcCallback>) {
+    with(|s| s.gc_cb = cb);
+}
+
+pub fn take_output() -> Vec<String> {
+    with(|s| std::mem::take(&mut s.out))
+}
+pub fn take_events() -> Vec<Event> {
+    with(|s| std::mem::take(&mut s.events))
+}
+pub fn take_trace() -> (Vec<TraceRec>, bool) {
+    with(|s| (std::mem::take(&mut s.trace_log), s.trace_truncated))
+}
+pub fn instruction_count() -> u64 {
+    with(|s| s.count)
+}
+pub fn per_opcode_counts() -> Vec<u64> {
+    with(|s| s.per_op.to_vec())
+}
+pub fn budget_exhausted() -> bool {
+    with(|s| s.budget_hit)
+}
+/// (address, type tag, live, allocation sequence number) of every box the ledger knows
+pub fn ledger() -> Vec<(usize, u8, bool, u64)> {
+    with(|s| {
+        s.heap
+            .iter()
+            .map(|(a, e)| (*a, e.ty, e.live, e.seq))
+            .collect()
+    })
+}
+pub fn live_count() -> usize {
+    with(|s| s.heap.values().filter(|e| e.live).count())
+}
+pub fn is_live(addr: usize) -> Option<bool> {
+    with(|s| s.heap.get(&addr).map(|e| e.live))
+}
+pub fn alloc_free_totals() -> (u64, u64) {
+    with(|s| (s.allocs, s.frees))
+}
+/// Drop ledger entries of dead boxes (their memory stays quarantined, i.e. is leaked on purpose).
+pub fn forget_dead() {
+    with(|s| s.heap.retain(|_, e| e.live));
+}
+pub fn clear_ledger() {
+    with(|s| {
+        s.heap.clear();
+        s.allocs = 0;
+        s.frees = 0;
+    });
+}
+
+/// Address of the box a heap value points to
+pub fn addr(o: Object) -> usize {
+    o.as_ptr() as usize
+}
+
+/// (byte, name, operand widths) for every opcode, Halt last
+pub fn opcode_table() -> Vec<(u8, String, Vec<usize>)> {
+    crate::compiler::verif_opcode_table()
+}
+
+/// Debug rendering of every token of the input (the lexer is crate-private)
+pub fn tokens(input: &str) -> Vec<String> {
+    let mut out = Vec::new();
+    for t in crate::lexer::Tokenizer::new(input) {
+        out.push(format!("{:?}", t));
+        if out.len() > 1_000_000 {
+            break;
+        }
+    }
+    out
+}
+
+// ------------------------------------------------------------------------------------------------
+// Hook entry points (called from the interpreter)
+
+fn event(s: &mut State, e: Event) -> bool {
+    s.events.push(e);
+    s.stop_on_event
+}
+
+fn probe_fail(site: &'static str, ip: usize, stack_len: usize, operand: i64) {
+    let stop = with(|s| {
+        event(
+            s,
+            Event::Probe {
+                site,
+                ip,
+                stack_len,
+                operand,
+            },
+        )
+    });
+    if stop && !std::thread::panicking() {
+        std::panic::panic_any(VerifStop);
+    }
+}
+
+/// builtins.rs call_print: returns true if the line was captured (nothing is written to stdout then)
+pub fn capture_line(line: &str) -> bool {
+    with(|s| {
+        if s.capture {
+            s.out.push(line.to_string());
+            true
+        } else {
+            false
+        }
+    })
+}
+
+/// vm.rs run(): a new piece of code is about to be executed
+pub fn on_run_start(code: &[u8], constants: &[Object]) {
+    let table = opcode_table();
+    with(|s| {
+        s.frames.clear();
+        s.frames.push((0, 0));
+        s.code_len = code.len();
+        s.n_consts = constants.len();
+        s.max_opcode = table.iter().map(|t| t.0).max().unwrap_or(0);
+        s.boundary = vec![false; code.len() + 1];
+        s.region_of = vec![0; code.len() + 1];
+        s.entries.clear();
+        if !s.probes {
+            return;
+        }
+        // instruction boundaries by linear decoding
+        let mut ip = 0;
+        while ip < code.len() {
+            s.boundary[ip] = true;
+            let b = code[ip];
+            let width: usize = match table.iter().find(|t| t.0 == b) {
+                Some(t) => t.2.iter().sum(),
+                None => break,
+            };
+            ip += 1 + width;
+        }
+        // function regions: the body of a function value with entry E is preceded by `Jump end`
+        let jump = table.iter().find(|t| t.1 == "Jump").map(|t| t.0);
+        let mut regions: Vec<(usize, usize)> = Vec::new();
+        for c in constants {
+            if c.tag() == Type::Function {
+                let [entry, _] = c.as_function();
+                let entry = entry as usize;
+                s.entries.push(entry as u32);
+                if entry >= 3 && entry <= code.len() && Some(code[entry - 3]) == jump {
+                    let end = code[entry - 2] as usize | (code[entry - 1] as usize) << 8;
+                    if end >= entry && end <= code.len() {
+                        regions.push((entry, end));
+                    }
+                }
+            }
+        }
+        // innermost region wins: paint larger regions first
+        regions.sort_by_key(|r| std::cmp::Reverse(r.1 - r.0));
+        for (i, (from, to)) in regions.iter().enumerate() {
+            for x in *from..*to {
+                s.region_of[x] = i as u32 + 1;
+            }
+        }
+    });
+}
+
+/// vm.rs: top of the dispatch loop. Returns an error when the instruction budget is exhausted.
+pub fn on_dispatch(
+    ip: usize,
+    code: &[u8],
+    stack_len: usize,
+    bp: u16,
+    frames: usize,
+) -> Option<Error> {
+    let mut fail: Option<(&'static str, i64)> = None;
+    let r = with(|s| {
+        if let Some(b) = s.budget {
+            if s.count >= b {
+                s.budget_hit = true;
+                return Some(Error::TypeError("verif: budget".to_string()));
+            }
+        }
+        s.count += 1;
+        let op = code.get(ip).copied();
+        if let Some(op) = op {
+            s.per_op[op as usize] += 1;
+        }
+        if s.trace {
+            if s.trace_log.len() < s.trace_cap {
+                s.trace_log.push(TraceRec {
+                    ip: ip as u32,
+                    op: op.unwrap_or(255),
+                    stack_len: stack_len as u32,
+                    bp,
+                    frames: frames as u16,
+                });
+            } else {
+                s.trace_truncated = true;
+            }
+        }
+        if s.probes {
+            match op {
+                None => fail = Some(("next:ip", ip as i64)),
+                Some(op) if op > s.max_opcode => fail = Some(("next:opcode", op as i64)),
+                Some(_) => {
+                    if !s.boundary.get(ip).copied().unwrap_or(false) {
+                        fail = Some(("next:boundary", ip as i64));
+                    }
+                }
+            }
+        }
+        None
+    });
+    if let Some((site, operand)) = fail {
+        probe_fail(site, ip, stack_len, operand);
+    }
+    r
+}
+
+fn probing() -> bool {
+    with(|s| s.probes)
+}
+
+/// vm.rs read_u8 / read_u16
+pub fn probe_read(ip: usize, width: usize, code_len: usize) {
+    if probing() && ip + width > code_len {
+        probe_fail("read:operand", ip, 0, width as i64);
+    }
+}
+
+/// vm.rs pop
+pub fn probe_pop(stack_len: usize, bp: u16, ip: usize) {
+    if !probing() {
+        return;
+    }
+    if stack_len == 0 {
+        probe_fail("pop:empty", ip, stack_len, 0);
+        return;
+    }
+    let floor = with(|s| {
+        s.frames
+            .last()
+            .map(|(b, l)| if *b == bp as usize { b + l } else { 0 })
+            .unwrap_or(0)
+    });
+    if stack_len - 1 < floor {
+        probe_fail("pop:floor", ip, stack_len, floor as i64);
+    }
+}
+
+/// vm.rs jump
+pub fn probe_jump(from_ip: usize, target: u16) {
+    if !probing() {
+        return;
+    }
+    let bad = with(|s| {
+        let t = target as usize;
+        if t >= s.code_len || !s.boundary[t] {
+            return Some("jump:target");
+        }
+        // from_ip is the address just past the jump instruction's operand
+        let from = from_ip.saturating_sub(3).min(s.code_len);
+        if s.region_of[from] != s.region_of[t] {
+            return Some("jump:region");
+        }
+        None
+    });
+    if let Some(site) = bad {
+        probe_fail(site, from_ip, 0, target as i64);
+    }
+}
+
+/// vm.rs Const and the fused *LocalConst opcodes
+pub fn probe_const(ip: usize, idx: u16) {
+    if probing() && with(|s| idx as usize >= s.n_consts) {
+        probe_fail("const:index", ip, 0, idx as i64);
+    }
+}
+
+/// vm.rs get_local / set_local
+pub fn probe_local(ip: usize, bp: u16, rel_idx: u16, stack_len: usize) {
+    if !probing() {
+        return;
+    }
+    let locals = with(|s| {
+        s.frames
+            .last()
+            .map(|(b, l)| if *b == bp as usize { *l } else { usize::MAX })
+            .unwrap_or(usize::MAX)
+    });
+    if bp as usize + rel_idx as usize >= stack_len {
+        probe_fail("local:stack", ip, stack_len, rel_idx as i64);
+    } else if rel_idx as usize >= locals {
+        probe_fail("local:index", ip, stack_len, rel_idx as i64);
+    }
+}
+
+/// vm.rs GetGlobal
+pub fn probe_global(ip: usize, idx: u16, globals_len: usize) {
+    if probing() && idx as usize >= globals_len {
+        probe_fail("global:index", ip, globals_len, idx as i64);
+    }
+}
+
+/// vm.rs CallBuiltin
+pub fn probe_builtin(ip: usize, builtin: u8, num_args: usize, stack_len: usize, bp: u16) {
+    if !probing() {
+        return;
+    }
+    if builtin > crate::builtins::Builtin::Length as u8 {
+        probe_fail("callbuiltin:id", ip, stack_len, builtin as i64);
+    }
+    let floor = with(|s| {
+        s.frames
+            .last()
+            .map(|(b, l)| if *b == bp as usize { b + l } else { 0 })
+            .unwrap_or(0)
+    });
+    if stack_len < floor + num_args {
+        probe_fail("callbuiltin:argc", ip, stack_len, num_args as i64);
+    }
+}
+
+/// vm.rs Call, before anything is popped
+pub fn probe_call_height(ip: usize, stack_len: usize, num_args: u8) {
+    if !probing() {
+        return;
+    }
+    if stack_len < num_args as usize + 1 {
+        probe_fail("call:height", ip, stack_len, num_args as i64);
+    } else if stack_len > u16::MAX as usize {
+        probe_fail("call:bp-wrap", ip, stack_len, num_args as i64);
+    }
+}
+
+/// vm.rs Call, once the callee is known to be a function
+pub fn on_call(ip: usize, stack_len: usize, base_pointer: u16, num_args: u8, entry: u32, num_locals: u32) {
+    let mut fail: Option<(&'static str, i64)> = None;
+    with(|s| {
+        if s.probes {
+            if num_locals < num_args as u32 {
+                fail = Some(("call:locals", num_locals as i64));
+            } else if !s.entries.contains(&entry) {
+                fail = Some(("call:entry", entry as i64));
+            } else if !s.boundary.get(entry as usize).copied().unwrap_or(false) {
+                fail = Some(("call:entry-boundary", entry as i64));
+            } else if base_pointer as usize + num_locals as usize > u16::MAX as usize {
+                fail = Some(("call:bp-wrap", base_pointer as i64));
+            }
+        }
+        s.frames.push((base_pointer as usize, num_locals as usize));
+    });
+    if let Some((site, operand)) = fail {
+        probe_fail(site, ip, stack_len, operand);
+    }
+}
+
+/// vm.rs popframe
+pub fn on_popframe(ip: usize, frames_len: usize) {
+    let bad = with(|s| {
+        if s.frames.len() > 1 {
+            s.frames.pop();
+        }
+        s.probes && frames_len < 2
+    });
+    if bad {
+        probe_fail("popframe:empty", ip, 0, frames_len as i64);
+    }
+}
+
+/// vm.rs Halt
+pub fn probe_halt(ip: usize, frames_len: usize) {
+    if probing() && frames_len != 1 {
+        probe_fail("halt:in-function", ip, 0, frames_len as i64);
+    }
+}
+
+/// gc.rs mark: index into the mark bitmap
+pub fn probe_mark(index: usize, bitmap_len: usize) {
+    if probing() && index >= bitmap_len {
+        probe_fail("gc:mark-index", 0, bitmap_len, index as i64);
+    }
+}
+
+/// vm.rs JumpIfFalse: replace the condition by the scheduled direction, if a schedule is installed
+pub fn override_branch(condition: Object) -> Object {
+    with(|s| match &s.branch_schedule {
+        Some(sched) if !sched.is_empty() => {
+            let v = sched[s.branch_pos % sched.len()];
+            s.branch_pos += 1;
+            Object::bool(v)
+        }
+        _ => condition,
+    })
+}
+
+/// object.rs: a Float/String/Array box was obtained from the allocator
+pub fn on_alloc(addr: usize, ty: Type) {
+    with(|s| {
+        if s.shadow == ShadowMode::Off {
+            return;
+        }
+        s.allocs += 1;
+        let seq = s.allocs;
+        s.heap.insert(
+            addr,
+            HeapEntry {
+                ty: ty as u8,
+                live: true,
+                seq,
+            },
+        );
+    });
+}
+
+/// object.rs destroy: returns true if the real release must be skipped (quarantine, or a double free that was reported)
+pub fn on_free(addr: usize) -> bool {
+    let mut stop = false;
+    let skip = with(|s| {
+        if s.shadow == ShadowMode::Off {
+            return false;
+        }
+        match s.heap.get_mut(&addr) {
+            Some(e) if e.live => {
+                e.live = false;
+                s.frees += 1;
+                if s.shadow == ShadowMode::Quarantine {
+                    true
+                } else {
+                    s.heap.remove(&addr);
+                    false
+                }
+            }
+            Some(_) => {
+                stop = event(s, Event::DoubleFree { addr });
+                true
+            }
+            None => {
+                // a box allocated while the ledger was off: not ours to judge
+                if s.shadow == ShadowMode::Quarantine {
+                    event(s, Event::UnknownFree { addr });
+                }
+                false
+            }
+        }
+    });
+    if stop && !std::thread::panicking() {
+        std::panic::panic_any(VerifStop);
+    }
+    skip
+}
+
+/// object.rs get / get_mut: a heap value is dereferenced
+pub fn on_deref(addr: usize) {
+    let stop = with(|s| {
+        if s.shadow != ShadowMode::Quarantine {
+            return false;
+        }
+        match s.heap.get(&addr) {
+            Some(e) if !e.live => event(s, Event::UseAfterFree { addr }),
+            _ => false,
+        }
+    });
+    if stop && !std::thread::panicking() {
+        std::panic::panic_any(VerifStop);
+    }
+}
+
+/// gc.rs: around collections
+pub fn gc_event(phase: GcPhase, roots: &[&[Object]], managed: &[Object]) {
+    let cb = with(|s| s.gc_cb.take());
+    if let Some(mut cb) = cb {
+        cb(phase, roots, managed);
+        with(|s| {
+            if s.gc_cb.is_none() {
+                s.gc_cb = Some(cb);
+            }
+        });
+    }
+}
